@@ -45,7 +45,7 @@ RULES = {}   # filled by modules through RULE attribute
 
 def load_known():
     p = os.path.join(VERIF, 'known_findings.json')
-    if not os.path.exists(p):
+    if os.environ.get('VERIF_NO_KNOWN') or not os.path.exists(p):   # calibration aid: report everything
         return {'findings': [], 'fixed': []}
     return json.load(open(p))
 
